@@ -117,3 +117,40 @@ Proof.
     + apply andb_true_iff in HL as [_ L]. destruct (Hl L) as [_ E]. congruence.
     + rewrite Hb. simpl. auto.
 Qed.
+
+(* exactly-once hand-over: Send reports true iff the item was appended to the channel (and then
+   exactly once, at the end); on every other outcome the channel is unchanged.  Holds in every
+   state, whatever the context. *)
+Lemma app_neq_self {A} (l : list A) x : l ++ [x] <> l.
+Proof.
+  intro E. apply (f_equal (@length A)) in E. rewrite app_length in E. simpl in E. lia.
+Qed.
+
+Theorem medium_send_true_iff_delivered_lemma s live v :
+  let r := med_step s (MSend live v) in
+  (snd r = MRSend true <-> c_buf (mch (fst r)) = c_buf (mch s) ++ [v])
+  /\ (snd r <> MRSend true -> mch (fst r) = mch s)
+  /\ (forall s' r', med_step_alt s (MSend live v) = Some (s', r') ->
+        r' = MRSend true /\ c_buf (mch s') = c_buf (mch s) ++ [v]).
+Proof.
+  destruct s as [k ch l ev]. unfold med_step, med_step_alt. simpl.
+  assert (N : forall x, c_buf ch = c_buf ch ++ [x] -> False)
+    by (intros x E; symmetry in E; exact (app_neq_self _ _ E)).
+  split; [|split].
+  - destruct k as [| | c]; simpl.
+    + destruct live; simpl; [destruct (c_closed ch); simpl|]; split; intro H;
+        try discriminate; try reflexivity; try (exfalso; eapply N; eauto).
+    + destruct live; simpl; [destruct (c_closed ch); simpl|]; split; intro H;
+        try discriminate; try reflexivity; try (exfalso; eapply N; eauto).
+    + destruct (c_closed ch); simpl; [split; intro H; [discriminate | exfalso; eapply N; eauto]|].
+      destruct (length (c_buf ch) <? c); destruct live; simpl; split; intro H;
+        try discriminate; try reflexivity; try (exfalso; eapply N; eauto).
+  - destruct k as [| | c]; simpl.
+    + destruct live; simpl; [destruct (c_closed ch); simpl|]; intro H; auto; congruence.
+    + destruct live; simpl; [destruct (c_closed ch); simpl|]; intro H; auto; congruence.
+    + destruct (c_closed ch); simpl; auto.
+      destruct (length (c_buf ch) <? c); destruct live; simpl; intro H; auto; congruence.
+  - intros s' r' H. destruct live; [discriminate|]. destruct k as [| | c]; try discriminate.
+    destruct (negb (c_closed ch) && (length (c_buf ch) <? c)); [|discriminate].
+    injection H as <- <-. simpl. auto.
+Qed.
